@@ -18,6 +18,7 @@ package main
 import (
 	"bytes"
 	"context"
+	"encoding/binary"
 	"encoding/hex"
 	"errors"
 	"fmt"
@@ -35,6 +36,7 @@ import (
 	"github.com/aergoio/aergo/v2/chain"
 	"github.com/aergoio/aergo/v2/config"
 	"github.com/aergoio/aergo/v2/consensus"
+	"github.com/aergoio/aergo/v2/consensus/impl/sbp"
 	"github.com/aergoio/aergo/v2/contract"
 	"github.com/aergoio/aergo/v2/contract/name"
 	"github.com/aergoio/aergo/v2/contract/system"
@@ -244,6 +246,11 @@ type reoffered struct {
 	err error
 }
 
+type ownResult struct {
+	blk *types.Block
+	err error
+}
+
 type node struct {
 	w       *world
 	cs      *chain.ChainService
@@ -252,6 +259,37 @@ type node struct {
 	dir     string
 	mu      sync.Mutex
 	reoffer []reoffered
+	hub     *component.ComponentHub
+	hf      *config.HardforkConfig
+	bf      *sbp.SimpleBlockFactory // the node's own block factory (started on first use)
+	own     chan ownResult          // blocks the factory handed to the chain service, and what addBlock said
+}
+
+// produce: the node produces a block itself, the way a block-producing node does — the real SimpleBlockFactory loop:
+// NewBlockHeaderInfoFromPrevBlock, BlockGenerator.GatherTXs (MemPoolGet -> the real MemPool.get with the verified
+// accounts the pool attached, executeTx on the block state), ConnectBlock (message.AddBlock with the block state ->
+// the real addBlock: the node's own block is committed as executed by the factory, without block-level signature check).
+func (n *node) produce() (*types.Block, error, bool) {
+	if n.bf == nil {
+		bf, err := sbp.New(n.hf, n.hub, n.cs.CDB(), n.cs.SDB())
+		if err != nil {
+			panic(err)
+		}
+		n.bf = bf
+		go bf.Start()
+	}
+	best, err := n.cs.GetBestBlock()
+	if err != nil {
+		panic(err)
+	}
+	n.bf.JobQueue() <- best
+	select {
+	case r := <-n.own:
+		n.settle()
+		return r.blk, r.err, true
+	case <-time.After(20 * time.Second):
+		return nil, nil, false
+	}
 }
 
 func (w *world) newNode(hf *config.HardforkConfig) *node {
@@ -279,11 +317,24 @@ func (w *world) newNode(hf *config.HardforkConfig) *node {
 	// the pool asks the chain service whether a contract accepts a delegated fee (the chain worker would ask the VM:
 	// the stub VM allows it unless scripted otherwise, and no such script is generated)
 	hub.Register(&recorder{name: message.ChainSvc, answer: func(m interface{}) interface{} {
-		if _, ok := m.(*message.CheckFeeDelegation); ok {
+		switch x := m.(type) {
+		case *message.CheckFeeDelegation:
 			return message.CheckFeeDelegationRsp{Err: nil}
+		case *message.AddBlock:
+			// what ChainManager.Receive does with the block its own factory sends (consensus/chain.ConnectBlock)
+			var bs *state.BlockState
+			if x.Bstate != nil {
+				bs = x.Bstate.(*state.BlockState)
+			}
+			err := chain.VerifC04AddOwnBlock(n.cs, x.Block, bs)
+			n.own <- ownResult{x.Block, err}
+			return &message.AddBlockRsp{BlockNo: x.Block.GetHeader().GetBlockNo(), BlockHash: x.Block.BlockHash(), Err: err}
 		}
 		return component.ErrHubUnregistered
 	}})
+	n.hub = hub
+	n.hf = &hfCopy
+	n.own = make(chan ownResult, 4)
 	n.cs.SetHub(hub)
 	n.mp.SetHub(hub)
 	best, err := n.cs.GetBestBlock()
@@ -306,6 +357,9 @@ func (n *node) settle() {
 
 func (n *node) close() {
 	n.settle()
+	if n.bf != nil {
+		close(n.bf.QuitChan())
+	}
 	// a verification that was started and never awaited (last block failed in execution) leaves goroutines parked on the
 	// verifier's channels; BeforeStop closes those channels under them. Such a node is abandoned instead of stopped.
 	if need, _ := chain.VerifC04VerifyState(n.cs); !need {
@@ -361,9 +415,17 @@ func (p *producer) sdbAt(root []byte) *statedb.StateDB { return p.core.VerifC04S
 
 // build: a block on parent with these transactions, whatever the executor says about each of them (a failing one
 // stays in the body; the header carries the state the others reach), as a Byzantine producer could send it.
-func (p *producer) build(parent *types.Block, txs []*types.Tx) (*types.Block, []error) {
+//
+// hdr == nil: the header carries this chain's id in the hard-fork version configured for the block's height (what an
+// honest producer does). Otherwise the header carries hdr as its chain id, and — like the validating node, which takes
+// ChainId and ForkVersion from the header it receives — the producer executes the transactions under it.
+func (p *producer) build(parent *types.Block, txs []*types.Tx, hdr []byte) (*types.Block, []error) {
 	p.ts += 1000
 	bi := types.NewBlockHeaderInfoFromPrevBlock(parent, p.ts, p.hf)
+	if hdr != nil {
+		bi.ChainId = hdr
+		bi.ForkVersion = types.DecodeChainIdVersion(hdr)
+	}
 	sdb := p.core.VerifC04SDB()
 	bs := state.NewBlockState(sdb.OpenNewStateDB(parent.GetHeader().GetBlocksRootHash()), state.SetPrevBlockHash(parent.BlockHash()))
 	bs.SetGasPrice(system.GetGasPrice())
@@ -391,6 +453,34 @@ func (p *producer) build(parent *types.Block, txs []*types.Tx) (*types.Block, []
 	}
 	blk.BlockHash()
 	return blk, errs
+}
+
+// adopt: a block the node under test produced itself is replayed into the producer's state DB (as any other node
+// receiving it would execute it), so that the harness can build on it. false: the replay does not reach the state
+// root the block's header claims, or one of its transactions does not execute.
+func (p *producer) adopt(parent, blk *types.Block) bool {
+	bi := types.NewBlockHeaderInfo(blk)
+	sdb := p.core.VerifC04SDB()
+	bs := state.NewBlockState(sdb.OpenNewStateDB(parent.GetHeader().GetBlocksRootHash()), state.SetPrevBlockHash(parent.BlockHash()))
+	bs.SetGasPrice(system.GetGasPrice())
+	bs.Receipts().SetHardFork(p.hf, bi.No)
+	exec := chain.NewTxExecutor(context.Background(), stubCcc{}, nil, bi, contract.ChainService)
+	ok := true
+	for _, tx := range blk.GetBody().GetTxs() {
+		if exec(bs, types.NewTransaction(tx)) != nil {
+			ok = false
+		}
+	}
+	if err := bs.Update(); err != nil {
+		panic(err)
+	}
+	if err := bs.Commit(); err != nil {
+		panic(err)
+	}
+	if blk.GetHeader().GetTimestamp() > p.ts {
+		p.ts = blk.GetHeader().GetTimestamp()
+	}
+	return ok && bytes.Equal(bs.GetRoot(), blk.GetHeader().GetBlocksRootHash())
 }
 
 // ---------------------------------------------------------------- error classes (never strings)
@@ -456,6 +546,13 @@ type session struct {
 	names   []string
 	pooled  map[string]int // carried hash -> tid of the transaction admitted under it
 	nameSeq int
+	// carried hashes of the transactions this session's node read from its pool dump file at start-up
+	loaded map[string]bool
+	// addresses of the stub contracts deployed in this session
+	contracts map[string]bool
+	sessNo    int
+	// hashes of the blocks the node produced itself
+	own map[string]bool
 }
 
 // cidAt: the chain-id hash a transaction must carry to execute in a block of height h: the hash of the chain id with
@@ -1072,6 +1169,12 @@ func (s *session) opState() {
 
 // opBlock: build a block on parent with the given transactions, submit it, answer what the node did.
 func (s *session) opBlock(parent *mblk, txs []*mtx, useMempool bool, shape string) *mblk {
+	return s.opBlockH(parent, txs, useMempool, shape, nil, true)
+}
+
+// opBlockH: the same with an explicit chain id in the block header (hdr != nil). sameChain: whether hdr is this chain's
+// id in some version (known from how the harness made it, not asked of the code under test).
+func (s *session) opBlockH(parent *mblk, txs []*mtx, useMempool bool, shape string, hdr []byte, sameChain bool) *mblk {
 	var raw []*types.Tx
 	var tids []string
 	b := &mblk{bid: len(s.blks), parent: parent, height: parent.height + 1}
@@ -1080,7 +1183,7 @@ func (s *session) opBlock(parent *mblk, txs []*mtx, useMempool bool, shape strin
 		tids = append(tids, fmt.Sprint(m.tid))
 		b.tids = append(b.tids, m.tid)
 	}
-	blk, _ := s.p.build(parent.blk, raw)
+	blk, _ := s.p.build(parent.blk, raw, hdr)
 	b.blk = blk
 	s.blks = append(s.blks, b)
 	s.byHash[string(blk.BlockHash())] = b
@@ -1093,6 +1196,19 @@ func (s *session) opBlock(parent *mblk, txs []*mtx, useMempool bool, shape strin
 		u = "1"
 	}
 	line := strings.TrimSpace(fmt.Sprintf("block %d %d %s %s", b.bid, parent.bid, u, strings.Join(tids, " ")))
+	if hdr != nil {
+		// header chain id: its version field (0 when there is none), its hash (what the block's transactions get validated
+		// against: bi.ChainIdHash()), and whether it is this chain's id up to the version
+		same := "0"
+		if sameChain {
+			same = "1"
+		}
+		ver := types.DecodeChainIdVersion(hdr)
+		if ver < 0 {
+			ver = 0
+		}
+		line = strings.TrimSpace(fmt.Sprintf("blockh %d %d %s %d %s %s %s", b.bid, parent.bid, u, ver, hx(common.Hasher(hdr)), same, strings.Join(tids, " ")))
+	}
 	s.run.Pending(line)
 	err := s.n.add(blk, useMempool)
 	if err == errHung {
@@ -1110,6 +1226,9 @@ func (s *session) opBlock(parent *mblk, txs []*mtx, useMempool bool, shape strin
 			cause = c
 		}
 		out = "rej:" + class(cause)
+		if class(cause) == "x" && os.Getenv("VERIF_C04_DEBUG") != "" {
+			fmt.Fprintf(os.Stderr, "c04 debug: %s => %v\n", line, cause)
+		}
 		b.dead = true
 		// a dead side branch: everything on it above the main chain is abandoned too
 		for x := parent; x != nil && !s.onMain(x, bestAfter); x = x.parent {
@@ -1201,6 +1320,7 @@ func (s *session) oracle() {
 		return
 	}
 	gen, _ := cs.GetBlock(chainBlocks[len(chainBlocks)-1].GetHeader().GetPrevBlockHash())
+	genCid := gen.GetHeader().GetChainID()
 	nonces := map[string]uint64{}
 	seen := map[string]bool{}
 	parent := gen
@@ -1208,7 +1328,21 @@ func (s *session) oracle() {
 	for i := len(chainBlocks) - 1; i >= 0; i-- {
 		b := chainBlocks[i]
 		sdb := cs.SDB().OpenNewStateDB(parent.GetHeader().GetBlocksRootHash())
-		cidHash := common.Hasher(b.GetHeader().GetChainID())
+		// this chain's identifier at this height: the genesis chain id in the hard-fork version the NODE IS CONFIGURED WITH
+		// for that height (not what the block's header says about itself)
+		want := append(binary.LittleEndian.AppendUint32(nil, uint32(s.hf.Version(b.BlockNo()))), genCid[4:]...)
+		hdr := b.GetHeader().GetChainID()
+		hdrOtherVersion := false
+		if !bytes.Equal(hdr, want) {
+			if len(hdr) >= 4 && bytes.Equal(hdr[4:], want[4:]) {
+				hdrOtherVersion = true
+				s.fail(fmt.Sprintf("block %d on the main chain carries this chain's id in version %d; the node is configured with version %d for that height",
+					b.BlockNo(), types.DecodeChainIdVersion(hdr), s.hf.Version(b.BlockNo())))
+			} else {
+				s.fail(fmt.Sprintf("a block carrying another chain's id is on the main chain (block %d)", b.BlockNo()))
+			}
+		}
+		cidHash := common.Hasher(want)
 		for _, tx := range b.GetBody().GetTxs() {
 			ntx++
 			acct := tx.Body.Account
@@ -1221,10 +1355,21 @@ func (s *session) oracle() {
 				verr = key.VerifyTx(tx)
 			}
 			if verr != nil {
-				s.fail(fmt.Sprintf("a transaction without a valid signature of its sender (or of the owner of the sender name) is on the main chain (block %d)", b.BlockNo()))
+				what := fmt.Sprintf("a transaction without a valid signature of its sender (or of the owner of the sender name) is on the main chain (block %d)", b.BlockNo())
+				if s.loaded[string(tx.Hash)] {
+					what += ": it came into the pool from the dump file"
+				}
+				if s.own[string(b.BlockHash())] {
+					what += ": in a block the node produced itself"
+				}
+				s.fail(what)
 			}
 			if !bytes.Equal(tx.Body.ChainIdHash, cidHash) {
-				s.fail(fmt.Sprintf("a transaction bound to another chain id hash is on the main chain (block %d)", b.BlockNo()))
+				what := fmt.Sprintf("a transaction bound to another chain id hash is on the main chain (block %d)", b.BlockNo())
+				if hdrOtherVersion && bytes.Equal(tx.Body.ChainIdHash, common.Hasher(hdr)) {
+					what += ": bound to the version the block header carries"
+				}
+				s.fail(what)
 			}
 			if !bytes.Equal(tx.Hash, tx.CalculateTxHash()) {
 				s.fail("a transaction whose carried hash is not the hash of its body is on the main chain")
@@ -1242,17 +1387,28 @@ func (s *session) oracle() {
 		parent = b
 	}
 	// the state agrees: every account's nonce is the number of transactions it executed; nobody else's nonce moved
+	// (the key accounts, every account that executed something, every contract deployed in this session, the name contract)
 	sdb := cs.SDB().OpenNewStateDB(best.GetHeader().GetBlocksRootHash())
+	accts := map[string]bool{types.AergoName: true}
 	for _, a := range s.w.addrs {
-		st, err := sdb.GetAccountState(types.ToAccountID(a))
+		accts[string(a)] = true
+	}
+	for a := range nonces {
+		accts[a] = true
+	}
+	for a := range s.contracts {
+		accts[a] = true
+	}
+	for a := range accts {
+		st, err := sdb.GetAccountState(types.ToAccountID([]byte(a)))
 		if err != nil {
 			panic(err)
 		}
-		if st.GetNonce() != nonces[string(a)] {
-			s.fail(fmt.Sprintf("state nonce of %s is %d but it executed %d transactions on the main chain", short(a), st.GetNonce(), nonces[string(a)]))
+		if st.GetNonce() != nonces[a] {
+			s.fail(fmt.Sprintf("state nonce of %s is %d but it executed %d transactions on the main chain", short([]byte(a)), st.GetNonce(), nonces[a]))
 		}
 	}
-	s.run.Eval(fmt.Sprintf("oracle %x %d", best.BlockHash(), ntx), ntx > 0)
+	s.run.Eval(fmt.Sprintf("oracle %d %d %d", s.sessNo, s.bestBlk().bid, ntx), ntx > 0)
 }
 
 func (s *session) pickTip() (*mblk, string) {
@@ -1435,6 +1591,12 @@ func (s *session) genNameMove() {
 	s.opExec(T)
 	out, ok := s.execOn(T, w.addrs[A]) // producer path: verified account A no longer is what the name resolves to
 	s.op(fmt.Sprintf("exec %d %s", T.tid, hx(w.addrs[A])), out, ok)
+	if s.rng.Chance(1, 2) {
+		// the node is a block producer: its pool offers T with the verified account A; executeTx must refuse it
+		if pb := s.opProduce("former-owner-tx-pooled"); pb != nil {
+			b2 = pb
+		}
+	}
 	s.opBlock(b2, []*mtx{T}, true, "former-owner-tx-pool-hit")
 	if s.rng.Chance(1, 2) {
 		// the new owner uses the name
@@ -1577,6 +1739,7 @@ func (s *session) genContractName() {
 	nd := s.nonceAt(tip, w.addrs[D])
 	na := s.nonceAt(tip, w.addrs[A])
 	cAddr := contract.CreateContractID(w.addrs[D], nd+1)
+	s.contracts[string(cAddr)] = true
 	dep := tx(w.addrs[D], D, nd+1, nil, nil, types.TxType_DEPLOY, "{}", "d:"+hx(cAddr), "deploy-stub-contract")
 	create := tx(w.addrs[A], A, na+1, []byte(types.AergoName), aergo1, types.TxType_GOVERNANCE,
 		fmt.Sprintf(`{"Name":"v1createName","Args":["%s"]}`, nm), "c:"+hx(nm), "name-create")
@@ -1627,6 +1790,7 @@ func (s *session) genFeeDelegation() {
 	}
 	nd := s.nonceAt(tip, w.addrs[D])
 	cAddr := contract.CreateContractID(w.addrs[D], nd+1)
+	s.contracts[string(cAddr)] = true
 	dep := tx(D, nd+1, nil, int64(rng.Intn(1000)), types.TxType_DEPLOY, "{}", "d:"+hx(cAddr), "deploy-stub-contract")
 	b1 := s.opBlock(tip, []*mtx{dep}, false, "deploy")
 	if s.bestBlk() != b1 {
@@ -1667,6 +1831,231 @@ func (s *session) genFeeDelegation() {
 	s.opBlock(s.bestBlk(), []*mtx{next}, use, "after-fee-delegated")
 }
 
+
+// genHeader: a block whose HEADER carries a chain id the node is not configured with for that height: this chain's id
+// in another hard-fork version, another chain's id (other magic), a chain id too short to hold a version, none at all.
+// Its transactions are bound to the hash of the chain id the header carries (they execute if the node takes the
+// header's word) or to this chain's real identifier for that height.
+func (s *session) genHeader() {
+	rng := s.rng
+	tip, shape := s.pickTip()
+	h := tip.height + 1
+	cfgV := s.hf.Version(h)
+	genCid := s.p.gen.GetHeader().GetChainID()
+	var hdr []byte
+	same := true
+	kind := ""
+	switch k := rng.Intn(10); {
+	case k < 6:
+		v := []int32{2, 3, 4, 5, 6, 9}[rng.Intn(6)]
+		if s.forkAt > 0 && rng.Chance(2, 3) {
+			v = 9 - cfgV // the version of the other side of the hard-fork height
+		}
+		if v < 4 || v == cfgV { // versions the stub VM and the model's bodies do not cover / the configured one
+			v = cfgV + 1
+		}
+		hdr = append(binary.LittleEndian.AppendUint32(nil, uint32(v)), genCid[4:]...)
+		kind = "hdr-other-version"
+	case k < 8:
+		cid := types.NewChainID()
+		if err := cid.Read(genCid); err != nil {
+			panic(err)
+		}
+		cid.Magic = "other.chain"
+		cid.Version = cfgV
+		hdr, _ = cid.Bytes()
+		same = false
+		kind = "hdr-other-chain"
+	case k < 9:
+		hdr = []byte{}
+		same = false
+		kind = "hdr-no-chain-id"
+	default:
+		hdr = append([]byte{}, genCid[:1+rng.Intn(3)]...)
+		same = false
+		kind = "hdr-short-chain-id"
+	}
+	var txs []*mtx
+	extra := map[string]uint64{}
+	for n := rng.Intn(3); n > 0; n-- {
+		m := s.validTx(tip, extra) // bound to this chain's identifier for height h
+		if rng.Chance(2, 3) {
+			o := m.tx.Body
+			b := &types.TxBody{Nonce: o.Nonce, Account: o.Account, Recipient: o.Recipient, Amount: o.Amount, Type: o.Type, ChainIdHash: common.Hasher(hdr)}
+			m = s.mk(txSpec{body: b, sig: sigSpec{mode: "k", key: s.acctIdx(b.Account)}, hash: hashSpec{mode: "self"}, kind: "bound-to-the-header's-chain-id"})
+		}
+		txs = append(txs, m)
+	}
+	use := rng.Chance(1, 2)
+	if use && len(txs) > 0 && tip == s.bestBlk() && rng.Chance(1, 2) {
+		s.opAdmit(txs[0])
+	}
+	b := s.opBlockH(tip, txs, use, shape+"-"+kind, hdr, same)
+	if !b.dead && s.bestBlk() == b && rng.Chance(1, 2) {
+		// an honest block on top of it
+		s.opBlock(b, []*mtx{s.validTx(b, map[string]uint64{})}, use, "after-"+kind)
+	}
+}
+
+// genLoad: the node starts with a pool dump file (what BeforeStop wrote in the previous run — or what somebody with
+// access to the data directory put there): MemPool.loadTxs on a fresh node. Afterwards a block carrying one of the
+// records arrives while the node consults its pool.
+func (s *session) genLoad() {
+	rng := s.rng
+	w := s.w
+	gen := s.blks[0]
+	var recs []*mtx
+	var forged *mtx
+	for from := 0; from < nAcct; from++ {
+		if rng.Chance(1, 4) {
+			continue
+		}
+		to := (from + 1 + rng.Intn(nAcct-1)) % nAcct
+		b := &types.TxBody{Nonce: 1, Account: w.addrs[from], Recipient: w.addrs[to], Amount: s.amount(), Type: types.TxType_TRANSFER, ChainIdHash: s.cidAt(1)}
+		sp := txSpec{body: b, sig: sigSpec{mode: "k", key: from}, hash: hashSpec{mode: "self"}, kind: "dumped-valid"}
+		switch k := rng.Intn(10); {
+		case k < 3:
+		case k < 4:
+			b.Nonce = 2 + uint64(rng.Intn(3))
+			sp.kind = "dumped-orphan"
+		case k < 7 || forged == nil && from == nAcct-1:
+			sp.sig = sigSpec{mode: "k", key: (from + 1 + rng.Intn(nAcct)) % (nAcct + 1)}
+			sp.kind = "dumped-wrong-key"
+		case k < 8:
+			b.ChainIdHash = otherCid("other.chain", s.hf.Version(1))
+			sp.kind = "dumped-foreign-chain-id"
+		case k < 9:
+			sp.hash = hashSpec{mode: "x", raw: rng.Bytes(32)}
+			sp.kind = "dumped-garbage-hash"
+		default:
+			b.Nonce = 0
+			sp.kind = "dumped-nonce-zero"
+		}
+		m := s.mk(sp)
+		if sp.kind == "dumped-wrong-key" && forged == nil {
+			forged = m
+		}
+		recs = append(recs, m)
+	}
+	// the dump file format of dumpTxsToFile: 4-byte little-endian length, protobuf encoding of the types.Tx
+	var buf []byte
+	var tids []string
+	for _, m := range recs {
+		raw, err := proto.Encode(m.tx)
+		if err != nil {
+			panic(err)
+		}
+		buf = binary.LittleEndian.AppendUint32(buf, uint32(len(raw)))
+		buf = append(buf, raw...)
+		tids = append(tids, fmt.Sprint(m.tid))
+	}
+	if err := os.WriteFile(filepath.Join(s.n.dir, "mempool.dump"), buf, 0o644); err != nil {
+		panic(err)
+	}
+	s.n.mp.VerifC04LoadTxs()
+	for _, m := range recs {
+		if s.n.mp.VerifC04Exist(m.tx.Hash) != nil {
+			s.pooled[string(m.tx.Hash)] = m.tid
+			s.loaded[string(m.tx.Hash)] = true
+			s.oracleLoaded(m)
+		}
+	}
+	s.op(strings.TrimSpace("load "+strings.Join(tids, " ")), s.poolLine(), true)
+	s.run.Count("load")
+	if forged != nil {
+		s.opBVerify(forged)
+		s.opBlock(gen, []*mtx{forged}, true, "dumped-wrong-key-pool-hit")
+	} else if len(recs) > 0 {
+		s.opBlock(gen, recs[:1], true, "dumped-pool-hit")
+	}
+}
+
+// oracleLoaded: what the pool holds must be authorised, however it came in.
+func (s *session) oracleLoaded(m *mtx) {
+	tx := m.tx
+	_, accept := s.n.mp.VerifC04ChainIdHashes()
+	bad := ""
+	switch {
+	case !bytes.Equal(tx.Body.ChainIdHash, accept):
+		bad = "bound to another chain id hash"
+	case !bytes.Equal(tx.Hash, tx.CalculateTxHash()):
+		bad = "whose carried hash is not the hash of its body"
+	case key.VerifyTx(tx) != nil:
+		bad = "without a valid signature of its sender"
+	}
+	if bad != "" {
+		s.fail("the pool took a transaction " + bad + " from its dump file (" + m.kind + ")")
+	}
+}
+
+
+// opProduce: the node produces a block itself from what its pool offers (real block factory, see node.produce).
+func (s *session) opProduce(shape string) *mblk {
+	parent := s.bestBlk()
+	s.n.reoffer = nil
+	blk, err, done := s.n.produce()
+	if !done {
+		s.fail("the node's block factory did not hand a block to the chain service within 20 s")
+		return nil
+	}
+	b := &mblk{bid: len(s.blks), parent: parent, height: parent.height + 1, blk: blk}
+	var tids []string
+	for _, tx := range blk.GetBody().GetTxs() {
+		tid, ok := s.pooled[string(tx.Hash)]
+		if !ok {
+			s.fail("the block factory put a transaction into its block that the pool never admitted")
+			tid = 0
+		}
+		tids = append(tids, fmt.Sprint(tid))
+		b.tids = append(b.tids, tid)
+		s.run.Count("produced-tx-kind:" + s.txs[tid].kind)
+	}
+	line := strings.TrimSpace(fmt.Sprintf("produce %d %s", b.bid, strings.Join(tids, " ")))
+	out := "ok"
+	if err != nil {
+		out = "rej:" + class(err)
+		s.op(line, out, false)
+		s.run.Count("produce:" + shape + "=" + out)
+		return nil
+	}
+	blk.BlockHash()
+	s.blks = append(s.blks, b)
+	s.byHash[string(blk.BlockHash())] = b
+	s.own[string(blk.BlockHash())] = true
+	if s.bestBlk() != b {
+		s.fail("the node's own block is not its best block after ConnectBlock succeeded")
+	}
+	// any other node receiving this block must be able to execute it to the same state
+	if !s.p.adopt(parent.blk, blk) {
+		s.fail("the node committed an own block that another node cannot execute to the state root its header claims")
+	}
+	s.op(line, out, true)
+	s.run.Count("produce:" + shape + "=" + out)
+	s.run.Count(fmt.Sprintf("produced-txs=%d", len(b.tids)))
+	s.oracle()
+	s.opState()
+	return b
+}
+
+// genProduce: transactions of all kinds are offered to the pool, then the node produces a block from its pool.
+func (s *session) genProduce() {
+	rng := s.rng
+	tip := s.bestBlk()
+	extra := map[string]uint64{}
+	for n := 1 + rng.Intn(4); n > 0; n-- {
+		if rng.Chance(2, 3) {
+			s.opAdmit(s.validTx(tip, extra))
+		} else {
+			s.opAdmit(s.genTx(tip))
+		}
+	}
+	b := s.opProduce("pool")
+	if b != nil && rng.Chance(1, 3) {
+		// and once more: nothing of the previous block may be offered again
+		s.opProduce("pool-again")
+	}
+}
+
 func (s *session) runSession(nops int) {
 	// hard-fork heights of this session: version 5 from block 1 on, or version 4 up to a small height and 5 from there
 	s.forkAt = 0
@@ -1682,6 +2071,10 @@ func (s *session) runSession(nops int) {
 	s.byHash = map[string]*mblk{string(s.p.gen.BlockHash()): gen}
 	s.txs, s.ops, s.names = nil, nil, nil
 	s.pooled = map[string]int{}
+	s.loaded = map[string]bool{}
+	s.contracts = map[string]bool{}
+	s.own = map[string]bool{}
+	s.sessNo++
 	_, accept := s.n.mp.VerifC04ChainIdHashes()
 	if !bytes.Equal(accept, s.cidAt(1)) {
 		s.fail("the pool of a fresh node does not accept the chain id hash of block 1")
@@ -1692,25 +2085,38 @@ func (s *session) runSession(nops int) {
 	}
 	// types.MaxAER: on a net that is not the main net NewChainService sets it to the genesis total
 	s.op(fmt.Sprintf("new %s %s %d 0 %s %s %s", hx(s.cidAt(1)), hx(s.cidAt(1<<40)), s.forkAt, types.MaxAER.String(), genesisBalance.String(), strings.Join(addrs, " ")), "ok", false)
+	verA := s.hf.Version(1)
+	if s.forkAt >= 2 {
+		verA = s.hf.Version(s.forkAt - 1)
+	}
+	s.op(fmt.Sprintf("cfgver %d %d", verA, s.hf.Version(1<<40)), "ok", false)
 	s.opState()
+	// a start-up with a pool dump file costs a second of wall time (loadTxs sleeps): in few sessions only
+	if s.sessNo%s.run.Pick(40, 100) == 3 {
+		s.genLoad()
+	}
 	for i := 0; i < nops; i++ {
 		k := s.rng.Intn(100)
 		switch {
-		case k < 30:
+		case k < 27:
 			s.genBlock()
-		case k < 36:
+		case k < 30:
+			s.genHeader()
+		case k < 35:
+			s.genProduce()
+		case k < 39:
 			s.genAfterFailing()
-		case k < 40:
-			s.genNameMove()
 		case k < 43:
-			s.genContractName()
+			s.genNameMove()
 		case k < 46:
+			s.genContractName()
+		case k < 49:
 			s.genFeeDelegation()
-		case k < 51:
+		case k < 54:
 			s.genFork()
-		case k < 56:
+		case k < 58:
 			s.genPoolHit()
-		case k < 66:
+		case k < 67:
 			s.opAdmit(s.genTx(s.bestBlk()))
 		default:
 			var m *mtx
